@@ -879,6 +879,9 @@ pub fn run(thorough: bool, seed: u64) -> Acc {
         acc
     });
     head.merge(body);
+    // in thorough mode only every 16th generated string is entered into the `distinct` set
+    // (10^8 hashes would not fit comfortably in memory); `distinct` is then a lower bound
+    head.set("distinct_sampled_one_in", if thorough { 16 } else { 1 });
     head
 }
 
